@@ -6,8 +6,11 @@ name=$1; prop=$2; tier=${3:-quick}
 d=/verif/seeded/$name
 [ -z "$(git -C /repo status --porcelain)" ] || { echo "/repo not clean"; exit 2; }
 git -C /repo apply "$d/patch.diff" || { echo "patch does not apply"; exit 3; }
+cp /verif/evidence/$prop.json /tmp/evidence.$prop.save 2>/dev/null
 out=$(cd /verif && ./check "$prop" "$tier" 2>&1); rc=$?
 git -C /repo checkout -- . ; git -C /repo clean -fdq
+# evidence must describe the unchanged tree: restore what the last clean run wrote
+[ -f /tmp/evidence.$prop.save ] && mv /tmp/evidence.$prop.save /verif/evidence/$prop.json
 echo "$out" | grep -E 'VIOLATION|replay: ' | head -12
 echo "exit $rc"
 python3 - "$d" "$prop" "$rc" <<PY "$out"
